@@ -456,9 +456,66 @@ def corpus_index():
         _IDX['facts'] = {os.path.basename(rel): (fam, facts) for rel, fam, args, facts in SK_FILES}
     return _IDX
 
+# input canonicalisation (harness op e): type code -> name; variant groups that must give identical images
+CANON_TYPES = {1: 'theta', 2: 'tuple', 3: 'aod', 4: 'hll4', 8: 'hll8', 6: 'hll_union', 5: 'cpc', 7: 'cpc_union', 15: 'count_min', 23: 'bloom'}
+CANON_VARIANTS = (['0..127 via int8', '0..127 via int16', '0..127 via int32', '0..127 via int64', '0..127 via uint8', '0..127 via uint16', '0..127 via uint32', '0..127 via uint64',
+                   'negatives via int8', 'negatives via int16', 'negatives via int32', 'negatives via int64',
+                   '255 via uint8', '-1 via int8', '65535 via uint16', '2^32-1 via uint32', '2^64-1 via uint64',
+                   'reals via double', 'reals via float', '0.0 double', '-0.0 double', '0.0 float', '-0.0 float',
+                   'NaN 7ff8000000000000', 'NaN 7ff8000000000001', 'NaN fff8000000000000', 'NaN 7ff0000000000001 (signalling)', 'NaN float 7fc00000', 'NaN float ffc00001',
+                   '"abc" string', '"" then "abc"', '"abc" raw bytes', 'fixed mixed stream'])
+CANON_GROUPS = [('integer overloads, values 0..127', range(0, 8)), ('signed overloads, negative values (sign extension)', range(8, 12)),
+                ('float vs double of the same values', (17, 18)), ('0.0 / -0.0, double and float', range(19, 23)),
+                ('NaN payloads, double and float', range(23, 29)), ('string / empty string ignored / raw bytes', (29, 30, 31))]
+# HLL coupon hash set stored verbatim in the updatable image: lg_k, n (SET mode up to 3/4 * 2^(lg_k-3) coupons; table of 2^14 slots from 6145 coupons on)
+HLL_SET_CASES = {'quick': [(17, 6200), (17, 7000), (17, 8000)], 'thorough': [(17, 6200), (17, 7000), (17, 8000), (17, 12000), (21, 7000), (21, 30000), (21, 120000)]}
+
+def hll_set_args(lgk, n):
+    return [lgk, 1, 0, n, 12345, 1, 0]
+
+def gen_canon_and_hllset(tier):
+    cases = []
+    for code, name in sorted(CANON_TYPES.items()):
+        cases.append(dict(id='canon_%s' % name, ops=[[0xe, code]], tags=['canonicalisation', name], fam=name, canon=name))
+    for lgk, n in HLL_SET_CASES[tier]:
+        cases.append(dict(id='hllset_%d_%d' % (lgk, n), ops=[build_op('hll', hll_set_args(lgk, n)), [8, 0]], tags=['hll', 'updatable-set-table'], fam='hll', hllset=[lgk, n]))
+    return cases
+
+def check_hll_set_table(b):
+    """independent reader of an updatable SET image: every stored coupon must be reachable from its home slot along the documented probe
+       sequence (start = coupon & (size-1), stride = ((coupon & 0x3FFFFFF) >> lgArr) | 1) without crossing an empty slot"""
+    if len(b) < 12 or b[0] != 3 or b[2] != 7:
+        return 'not a SET-mode HLL image (preamble ints %s, family %s)' % (b[0] if b else None, b[2] if len(b) > 2 else None)
+    if (b[7] & 3) != 1:
+        return 'mode is not SET'
+    lgarr = b[4]; size = 1 << lgarr
+    count = int.from_bytes(bytes(b[8:12]), 'little')
+    if len(b) != 12 + 4 * size:
+        return 'image length %d, expected %d for lgArr %d' % (len(b), 12 + 4 * size, lgarr)
+    arr = [int.from_bytes(bytes(b[12 + 4 * i:16 + 4 * i]), 'little') for i in range(size)]
+    stored = sum(1 for c in arr if c != 0)
+    if stored != count:
+        return 'count field %d but %d non-empty slots' % (count, stored)
+    if 4 * count > 3 * size:
+        return 'table more than 3/4 full (%d of %d)' % (count, size)
+    mask = size - 1
+    for idx, c in enumerate(arr):
+        if c == 0:
+            continue
+        probe = c & mask; stride = ((c & 0x3FFFFFF) >> lgarr) | 1
+        for _ in range(size):
+            if probe == idx:
+                break
+            if arr[probe] == 0:
+                return 'coupon %#x stored in slot %d is not reachable: its documented probe sequence meets the empty slot %d first' % (c, idx, probe)
+            probe = (probe + stride) & mask
+        else:
+            return 'coupon %#x in slot %d: not on its probe sequence' % (c, idx)
+    return None
+
 def gen_c10(rng, tier):
     import vlib
-    cases = []
+    cases = gen_canon_and_hllset(tier)
     exp_sk = load_json('serde_sk_expected.json', {})
     for k, (rel, fam, args, facts) in enumerate(SK_FILES):
         path = os.path.join(vlib.REPO, rel)
@@ -494,6 +551,35 @@ def oracle_c10(case, irecs, mrecs):
         if i >= len(irecs):
             break
         R = irecs[i]['R']
+        if op[0] == 0xe:
+            name = CANON_TYPES.get(op[1], 'type%d' % op[1])
+            if R == [-1] or len(R) < len(CANON_VARIANTS):
+                fails.append(dict(sig='c10_canonicalisation_failed:%s' % name, what='the canonicalisation run of %s threw or is incomplete' % name, op_index=i)); continue
+            for gname, idxs in CANON_GROUPS:
+                vals = [(j, R[j]) for j in idxs if R[j] != -2]
+                if len(set(v for _, v in vals)) > 1:
+                    ref = vals[0][1]
+                    odd = [CANON_VARIANTS[j] for j, v in vals if v != ref]
+                    fails.append(dict(sig='c10_input_canonicalisation:%s:%s' % (name, gname.split(',')[0].replace(' ', '_')),
+                                      what='%s: logically equal inputs through different update() overloads give different images [%s]: %s differ from %s' %
+                                           (name, gname, ', '.join(odd[:6]), CANON_VARIANTS[vals[0][0]]), op_index=i))
+            ref = idx.setdefault('canon', load_json('serde_canon.json', {})).get(name)
+            if ref is not None and R[:len(ref)] != ref:
+                bad = [CANON_VARIANTS[j] for j in range(min(len(ref), len(R))) if R[j] != ref[j]]
+                fails.append(dict(sig='c10_input_hash_changed:%s' % name, what='%s: the image of a fixed input now differs from the reference recorded from the baseline (hashing / canonicalisation of '
+                                  'the input changed): %s' % (name, ', '.join(bad[:8])), op_index=i))
+            continue
+        if op[0] == 8 and b0 is not None and fam == 'hll' and b0[3:] and tuple(b0[3:]) in set(tuple(hll_set_args(l, n)) for l, n in HLL_SET_CASES['thorough']):
+            if R == [-1]:
+                fails.append(dict(sig='c10_hll_set_table:unwritable', what='serialize_updatable threw', op_index=i)); continue
+            bad = check_hll_set_table(R)
+            if bad:
+                fails.append(dict(sig='c10_hll_set_probe_sequence', what='updatable SET image of hll_sketch(lg_k=%d) with %d items: %s' % (b0[3], b0[6], bad), op_index=i))
+            ref = idx.setdefault('hllset', load_json('serde_hllset.json', {})).get('%d_%d' % (b0[3], b0[6]))
+            if ref is not None and hashlib.sha1(bytes(x & 0xff for x in R)).hexdigest() != ref:
+                fails.append(dict(sig='c10_hll_set_table_changed', what='updatable SET image of hll_sketch(lg_k=%d) with %d items differs from the digest recorded from the baseline '
+                                  '(the table is stored verbatim: slot positions follow the documented probe sequence)' % (b0[3], b0[6]), op_index=i))
+            continue
         if op[0] == 0xa:
             base = os.path.basename(bytes(x & 0xff for x in op[2:]).decode('utf-8', 'replace'))
             case = dict(case, sk=base, expected=idx['sk'].get(base), facts=idx['facts'].get(base, (None, None))[1])
@@ -549,7 +635,8 @@ def oracle_c10(case, irecs, mrecs):
                                   '(bytes %d stream %d consumed-all %d wrap %d paths-agree %d same-content %d)' % (op[2], fam, case['ops'][0][3:], fb, fs, fc, fw, agree, eq), op_index=i))
     return fails
 
-RULE_C10 = ('(a) the 15 reference images shipped under */test/*.sk are read through bytes, stream and wrap readers: all paths agree, the stream reader consumes exactly the file, the content equals the '
+RULE_C10 = ('(0) input canonicalisation: for theta, tuple, array-of-doubles, HLL_4, HLL_8, hll_union, cpc, cpc_union, count-min and bloom the same logical values through every update() overload (int8..int64 / uint8..uint64 incl. negative values, float vs double, -0.0 vs 0.0, six NaN payloads, string / empty string / raw bytes) into separate sketches must give identical images, and the image digests of 33 fixed inputs per type must equal the references recorded from the baseline; HLL coupon hash set stored verbatim in the updatable image (lg_k 17 with 6200/7000/8000 items, thorough also lg_k 21): digest = baseline digest and an independent reader checks that every stored coupon is reachable along the documented probe sequence; '
+            '(a) the 15 reference images shipped under */test/*.sk are read through bytes, stream and wrap readers: all paths agree, the stream reader consumes exactly the file, the content equals the '
             'content recorded from the pinned commit and the facts in the file names (k, n); (b) a baseline corpus of images of every type/state class written by the pinned commit is re-read by '
             'the current tree (content = recorded content), the current tree writes byte-identical images for the same histories (hash-table order canonicalised; compared when the history still yields the recorded content); (c) images in older formats (theta serial versions 1 and 2, tuple legacy, t-digest reference big-endian formats) synthesised from the documented layouts are read back '
             'with the same content; (d) decoders written in Python from the layout comments decode the baseline images of count-min, KLL, Bloom, t-digest, VarOpt, EBPPS, density, REQ, HLL list/set/array '
@@ -708,6 +795,8 @@ def record():
     objs = baseline_objects()
     for k, (f, args) in enumerate(objs):
         cases.append(dict(id='bl%d' % k, ops=[build_op(f, args), [8, 0], [7, 0]]))
+    extra = gen_canon_and_hllset('thorough')
+    cases += extra
     tr, crashes = vlib.run_impl(exe, cases, bdir, tag='record')
     if crashes:
         print('crashes while recording:', list(crashes)[:5]); sys.exit(1)
@@ -726,7 +815,16 @@ def record():
             continue         # keep the corpus small: big images are covered by the smaller ones of the same state class
         base.append(dict(fam=f, args=args, image=bytes(recs[1]['R']).hex(), obs=recs[2]['R'][1:]))
     json.dump(base, open(os.path.join(CORPUS, 'serde_baseline.json'), 'w'))
-    print('recorded %d shipped images, %d baseline images' % (len(sk), len(base)))
+    canon = {}; hs = {}
+    for c in extra:
+        recs = tr[c['id']]
+        if c.get('canon'):
+            canon[c['canon']] = recs[0]['R']
+        else:
+            hs['%d_%d' % tuple(c['hllset'])] = hashlib.sha1(bytes(x & 0xff for x in recs[1]['R'])).hexdigest()
+    json.dump(canon, open(os.path.join(CORPUS, 'serde_canon.json'), 'w'))
+    json.dump(hs, open(os.path.join(CORPUS, 'serde_hllset.json'), 'w'))
+    print('recorded %d shipped images, %d baseline images, %d canonicalisation references, %d HLL set-table digests' % (len(sk), len(base), len(canon), len(hs)))
 
 if __name__ == '__main__':
     if '--record' in sys.argv:
